@@ -125,3 +125,39 @@ def run(ctx):
                                "truncated" % s[2][3], "%s:%s" % (f.file, s[3]))
                         k += 1
     ctx.floor("J5.narrowing_length_casts", n5, 4)
+    path_is_stepwise(ctx)
+
+
+def path_is_stepwise(ctx):
+    """J6 PATH=STEPWISE: JsonbView::get_path(path) must agree with looking the steps up one by one with get().  In get_path, whenever
+    the current value is an Object every continuing path performs the step with JsonbView::get(key) — no other dispatch on the key's
+    spelling (an all-digit key is still an object key)."""
+    from paths import success_escapes, describe_path
+    m = ctx.m
+    f = m.fn(V + "get_path")
+    sw = codec.enum_switches(f, "records::jsonb::JsonbValue", m)
+    gets = [c for c in f.calls if c.name == V + "get" or c.name.endswith("JsonbView::<'a>::get")]
+    arms = [x for x in sw if "Object" in x[1]]
+    if not arms or not gets:
+        # a (value, key) tuple match lowers differently: fall back to requiring that no other lookup API is used
+        other = [c for c in f.calls if c.name.endswith("JsonbView::<'a>::array_get") or c.name.rsplit("::", 1)[-1] in ("parse",)]
+        ok = bool(gets) and not other
+        ctx.ob("J6.PATH=STEPWISE", "get_path", ok, "every step is a get()" if ok else
+               "get_path dispatches on the spelling of the key (%s): an object key made of digits is looked up as an array index and not found"
+               % (other[0].name.rsplit("::", 1)[-1] if other else "no get"), f.loc())
+        return
+    bad = None
+    for bb, a, other in arms:
+        esc = success_escapes(f, [a["Object"]], [c.bb for c in gets], ())
+        # leaving the arm towards the loop header / return without get()
+        reach = f.reachable([a["Object"]], blocked=[c.bb for c in gets])
+        loops = f.loops()
+        items = list(loops.items()) if isinstance(loops, dict) else list(loops)
+        hdrs = {h for h, body in items if bb in body}
+        if esc or (hdrs & reach):
+            bad = describe_path(f, esc[0]) if esc else "back to the loop header"
+    others = [c for c in f.calls if c.name.endswith("JsonbView::<'a>::array_get")]
+    ok = bad is None and not others
+    ctx.ob("J6.PATH=STEPWISE", "get_path", ok, "an Object step is always a get(key)" if ok else
+           "with an Object as the current value get_path can continue without get(key)%s: an object key made of digits is treated as an "
+           "array index and not found, while stepwise lookup finds it" % (" (%s)" % bad if bad else " (array_get is consulted)"), f.loc())
